@@ -216,7 +216,10 @@ impl<D> Serialize for DicomJson<&'_ InMemElement<D>> {
 
         match self.0.value() {
             DicomValue::Sequence(seq) => {
-                serializer.serialize_entry("Value", &DicomJson(seq.items()))?;
+                // an empty sequence is an empty value: no "Value" member
+                if !seq.items().is_empty() {
+                    serializer.serialize_entry("Value", &DicomJson(seq.items()))?;
+                }
             }
             DicomValue::PixelSequence(_seq) => {
                 //serializer.serialize_entry("Value", &DicomJson(seq))?;
@@ -225,9 +228,17 @@ impl<D> Serialize for DicomJson<&'_ InMemElement<D>> {
                 // no-op
             }
             DicomValue::Primitive(v) => match vr {
+                VR::AT => {
+                    if let PrimitiveValue::Tags(tags) = v {
+                        // attribute tags are encoded as "GGGGEEEE"
+                        let tags: Vec<_> = tags.iter().copied().map(DicomJson::from).collect();
+                        serializer.serialize_entry("Value", &tags)?;
+                    } else {
+                        serializer.serialize_entry("Value", &AsStrings::from(v))?;
+                    }
+                }
                 VR::AE
                 | VR::AS
-                | VR::AT
                 | VR::CS
                 | VR::DA
                 | VR::DT
